@@ -107,7 +107,9 @@ func (sv *Solver) Solve(script string) SolveResult {
 	if err := os.WriteFile(file, []byte(full), 0o644); err != nil {
 		return SolveResult{Answer: "error"}
 	}
-	defer os.Remove(file)
+	if os.Getenv("GOVC_KEEP") == "" {
+		defer os.Remove(file)
+	}
 	res := SolveResult{Raw: map[string]string{}}
 	// stage 1: primary solver, short timeout
 	ans, model, el := runOne(context.Background(), "z3-new", file, sv.QuickS, sv.Seed)
